@@ -143,7 +143,7 @@ func sharingGraphs(thorough bool) []string {
 func TestVerifC14(t *testing.T) {
 	rec := ev.New()
 	defer rec.Flush(t)
-	rec.Rule("scenario = image graph (alphabet + every sharing pattern of 2 (thorough 3) platform images over a pool of 3 layers) × endpoint pairing × target pre-state (empty / complete / stale / every subset of the closure), default options; " +
+	rec.Rule("scenario = image graph (alphabet + every sharing pattern of 2 (thorough 3) platform images over a pool of 3 layers) × endpoint pairing × target pre-state (empty / complete / stale / every subset of the closure), default options; five graphs again between two registries that each have an empty mirror configured; " +
 		"each executed on the real ImageCopy under the controlled scheduler (default schedule, plus every schedule with 1 departure at request arrivals for the sharing graphs). Oracle: per-digest counts in the model registries' request logs. " +
 		"distinct_nontrivial = distinct (scenario, outcome, deviating?) triples")
 	if runReplay(t, rec, judgeC14) {
@@ -182,6 +182,19 @@ func TestVerifC14(t *testing.T) {
 				}
 				scs = append(scs, schedItem{Scen{Graph: g, Pair: p, Opt: "default", Feat: "full", Pre: pre}, b, false})
 			}
+		}
+	}
+	// one persistent delay: a goroutine stalled while all its siblings run on
+	for _, g := range []string{"G3", "G5", "G6", "G15", "G18", "G19", "G20", "SH-01-12", "SH-00-00", "SH-01-10"} {
+		for _, p := range []string{"two-reg", "same-reg-refuse", "same-reg-grant"} {
+			scs = append(scs, schedItem{Scen{Graph: g, Pair: p, Opt: "default", Feat: "full", Pre: "empty", Stall: true}, 1, false})
+		}
+	}
+	// the same between two registries that each have a (reachable, empty) mirror configured: what the
+	// target holds is still decided by the target
+	for _, g := range []string{"G1", "G3", "G15", "G18", "G19"} {
+		for _, pre := range []string{"empty", "complete", "stale", halfMask(g)} {
+			scs = append(scs, schedItem{Scen{Graph: g, Pair: "two-reg", Opt: "default", Feat: "full", Pre: pre, Mirrors: true}, 0, false})
 		}
 	}
 	for _, it := range scs {
